@@ -10,8 +10,8 @@
    The selectors (and with them every random seed of the randomized strategy) are universally
    quantified; the only hypothesis on them is sel_sound: what a selector returns is a sub-multiset of
    the pool it was given (proved for pycardano's two selectors under C14, checked at run time here). *)
-From Coq Require Import NArith String List Bool Permutation Sorted.
-From PyC Require Import Base Inputs InputsProofs.
+From Coq Require Import NArith PeanoNat String List Bool Permutation Sorted.
+From PyC Require Import Base Inputs InputsProofs KeyedSet InputsKeyed InputsOracle.
 Import ListNotations.
 Open Scope N_scope.
 
@@ -145,3 +145,41 @@ Theorem C09_unmodified_partial : forall c sels need st,
   potential st' = potential st /\ excluded st' = excluded st /\ addrs st' = addrs st.
 Proof. exact build_frame. Qed.
 Print Assumptions C09_unmodified_partial.
+
+(* The body's input set is pycardano's OrderedSet: membership is decided on a KEY of the member (str(item)), not on the
+   member.  body_inputs_k key = that set with an arbitrary key function; body_inputs (all theorems above) = the set by
+   equality of the references.  They are the same function whenever the key is injective on the references in play -- and
+   that hypothesis is decided, case by case, on the keys the implementation itself computes (keys_ok, part of the oracle). *)
+Theorem C09_ordered_set_key : forall kt sel,
+  keys_injectiveb kt = true -> incl (map ref_of sel) (map fst kt) ->
+  body_inputs_k (key_of kt) sel = body_inputs sel.
+Proof. exact body_inputs_keyed_table. Qed.
+Print Assumptions C09_ordered_set_key.
+
+Theorem C09_explicit_present_keyed : forall kt sel u,
+  keys_injectiveb kt = true -> incl (map ref_of sel) (map fst kt) ->
+  In u sel -> In (ref_of u) (body_inputs_k (key_of kt) sel).
+Proof. exact explicit_present_keyed. Qed.
+Print Assumptions C09_explicit_present_keyed.
+
+(* what the oracle's keys_ok establishes: the hypothesis above for every selection drawn from the case's table *)
+Theorem C09_keys_ok_meaning : forall k sel,
+  keys_ok k = true -> incl sel (rc_utxos k) ->
+  body_inputs_k (key_of (key_table k)) sel = body_inputs sel.
+Proof.
+  intros k sel H I. unfold keys_ok in H. apply andb_true_iff in H as [L H].
+  apply body_inputs_keyed_table; [exact H|].
+  apply Nat.eqb_eq in L.
+  unfold key_table. rewrite combine_fst_map_ok by (now rewrite map_length).
+  intros r Hr. apply in_map_iff in Hr. destruct Hr as [u [<- Hu]]. apply in_map. now apply I.
+Qed.
+Print Assumptions C09_keys_ok_meaning.
+
+(* without injectivity the property fails: an explicitly added input is not in the body *)
+Theorem C09_non_injective_key_refuted :
+  exists key a b, In b [a; b] /\ In (ref_of b) (body_inputs [a; b]) /\ ~ In (ref_of b) (body_inputs_k key [a; b]).
+Proof.
+  exists abbrev_key, (mkU (hx "a1220b") 0 1), (mkU (hx "a1330b") 0 2).
+  split; [right; now left|]. exact keyed_set_drops_an_explicit_input.
+Qed.
+Print Assumptions C09_non_injective_key_refuted.
